@@ -99,6 +99,11 @@ def run(ctx):
     vlib.mc_check(ctx, "LockProto", "LockProto_writer.cfg", timeout=120, workers=2)
     vlib.mc_check(ctx, "LockProto", "LockProto_negS13a.cfg", expect_violation="Mutex", timeout=120, workers=2)
     vlib.mc_check(ctx, "LockProto", "LockProto_negS13b.cfg", expect_violation="Mutex", timeout=120, workers=2)
+    # unbounded in the number of inodes, both kinds of lock, 4 threads: IndInv /\ Mutex is inductive (Apalache); with unlink-on-release it is not
+    ok_lock = vlib.apalache_inductive(ctx, "LockProtoInd", ["LockProto.tla", "LockProtoInd.tla"], "ConstInit", "IndAndMutex")
+    if ok_lock is False:
+        ctx.violation("LockProto: IndInv /\\ Mutex is not inductive (Apalache)", [], "")
+    vlib.apalache_inductive(ctx, "LockProtoIndNeg", ["LockProto.tla", "LockProtoIndNeg.tla"], "ConstInit", "IndAndMutex", expect_fail=True)
     fp = ctx.path("flock.ndjson")
     vlib.run_bin("flock_driver", ["run", "--seed", ctx.seed, "--rounds", 16 if ctx.quick else 160, "--threads", 4, "--out", fp], timeout=900)
     fruns = [[{k: v for k, v in e.items() if k in ("ev", "t", "kind", "lock", "err")} for e in r] for r in vlib.split_runs(vlib.read_ndjson(fp))]
